@@ -173,7 +173,7 @@ __CPROVER_requires(IS_VALUE(v_c0))                                        /* eve
 __CPROVER_requires(0 <= g_w && g_w < TOKCAP && g_w <= g_len - off && v_w == line[off + g_w] && !IS_TOKCHAR(v_w))
 __CPROVER_requires(GHOST_K(line, off) && g_k < g_len - off && 0 <= g_tl && g_tl <= g_len - off)
 __CPROVER_requires(g_rec[0] == 0)
-__CPROVER_assigns(__CPROVER_object_whole(out), __CPROVER_object_whole(g_rec), v_ret)
+__CPROVER_assigns(gp_line, __CPROVER_object_whole(out), __CPROVER_object_whole(g_rec), v_ret)
 /* pos ends inside the line, behind the token and one optional blank */
 __CPROVER_ensures(1 <= out[1] && off + out[1] <= g_len && out[2] == line[off + out[1]])
 __CPROVER_ensures(out[0] == off + out[1] + (IS_SPACE(out[2]) ? 1 : 0) && out[0] <= g_len)
